@@ -388,11 +388,16 @@ def gen_mf_cases(rng, tier):
             "p_fail": rng.choice([0, 0.05, 0.1, 0.2]),
             "p_early": rng.choice([0, 0, 0.05]),
         }
-    for _ in range(n):
+    for j in range(n):
         cls = rng.choice(["hyperband", "hyperband", "hyperband", "dehb"])
         grace, rf, maxr = rng.choice([(1, 2, 4), (1, 2, 4), (1, 3, 9), (1, 2, 8), (2, 2, 8), (1, 3, 10), (1, 4, 16)])
+        sdata = rng.choice(["rungs", "all"])
+        if j < 4:  # every scheduler class with every data policy in every run
+            cls, sdata = [("dehb", "all"), ("hyperband", "all"), ("dehb", "rungs"), ("hyperband", "rungs")][j]
+            if grace == maxr // rf and sdata == "all":
+                pass
         c = {"cls": cls, "mode": rng.choice(["min", "max"]), "grace_period": grace, "reduction_factor": rf,
-             "max_resource_level": maxr, "searcher_data": rng.choice(["rungs", "all"]),
+             "max_resource_level": maxr, "searcher_data": sdata,
              "max_resource_attr": rng.random() < 0.5, "random_seed": rng.randrange(1000)}
         if cls == "hyperband":
             c["brackets"] = rng.choice([None, None, 1, 2])
